@@ -4,13 +4,25 @@ import scen_common
 
 PID = "C05"
 ECANCELED_NUM = 125   # Linux errno ECANCELED (Gen/Consts.v has the probed value; the driver prints the raw return value)
-PROP_V = ["Props/Properties_C05cv.v", "Props/Properties_C05mu.v"]
+PROP_V = ["Props/Properties_C05cv.v", "Props/Properties_C05mu.v", "Props/Properties_C05sw.v"]
 GEN_MODULES = ["Consts", "Sites"]
 FLOW_FILES = ['cv.c', 'mu_wait.c', 'sem_wait.c']
 REPLAY_HINT = "VRT_SEED=<seed> [VRT_MODE=<m>] _work/h/cv_mix | muwait_mix | cancel_mix"
-PARTIAL = ["the logic of nsync_sem_wait_with_cancel_ (sem_wait.c:39-73: the minimum of the deadline and the note's expiry, `deadline_is_nearer` with its strict `<`, "
-           "notify-on-expiry) is NOT modelled step by step: CvModel and MuWaitModel take its result as a guarded choice (ETIMEDOUT only with clock >= deadline, "
-           "ECANCELED only with the note notified); that function is covered by the cancel_mix / cv_mix oracles and the flow pin of sem_wait.c only",
+PARTIAL = ["nsync_sem_wait_with_cancel_ (all of sem_wait.c) and what it meets in note.c (nsync_note_notified_deadline_, notify, note_notify_child, seen from the "
+           "cancel note) are modelled step by step in Model/SemWaitModel.v (any number of threads, notes, waiters per note; the minimum of the deadline and the "
+           "note's expiry with its strict `<`, notify-on-expiry, the on-stack record) and replayed in lock-step against cancel_mix; Properties_C05sw: "
+           "C05sw_results (0 / ETIMEDOUT / ECANCELED only), C05sw_reason_partial (0 => the P took a post; ETIMEDOUT => the clock had reached abs_deadline and the "
+           "deadline was the nearer one or there was no note; ECANCELED => there was a note and its `notified` word is set OR its expiry is not after the epoch; "
+           "by expiry only if the clock had reached the expiry), C05sw_clean, C05sw_no_lost_cancel / C05sw_drainer_enabled / C05sw_not_stuck (a waiter in its P "
+           "with the note notified has a post or a notifier still draining, and that notifier is never blocked), C05sw_deadline_enabled (any deadline value, "
+           "negative included, enables the time-out once reached), C15sw_no_deadline; C13sw_no_dead_touch / C13sw_taken_live / C13sw_queue (no step reads or "
+           "writes an on-stack record whose call has returned).  CvModel / MuWaitModel still take the function's RESULT as a guarded choice: the composition "
+           "is by the shared contract, not one combined model",
+           "C05sw_reason_full ('ECANCELED => the notified word is set') is refuted by design (C05sw_reason_refuted; replayed on the real library): a note "
+           "created with an expiry at or before the epoch counts as notified for every observer although nobody ever stores its `notified` word; "
+           "C05sw_expired_prompt (run alone, a wait with an expired deadline returns within 16 own steps) is only a Definition with vm_compute instances -- "
+           "it needs two further invariants (disconnecting != 0 only inside notify; a live record's owner is inside its call); promptness is decided by the "
+           "C15 grid and the cancel_mix quiescent-state observer",
            "C05_reason / C05_mode: the guards of st_WSem and the abstract acquire are by construction (stated in the theorem comments); their content is "
            "outcome in {0, sem_outcome} on every path and the re-acquired mode = entry mode (invariant lt_ok); C05_no_P_after_outcome_pc/_log only restate the loop guard; "
            "the mode in which nsync_mu_lock_slow_ re-acquires (cv.c:299) is inside CvModel's abstract mutex -- the mu_wait half (C05mu_return over MuWaitModel) models "
@@ -18,7 +30,7 @@ PARTIAL = ["the logic of nsync_sem_wait_with_cancel_ (sem_wait.c:39-73: the mini
            "'needs no further wake-up' is C05_returns_alone (a wait whose sem_outcome is non-zero and whose waiting flag is clear -- or which is unlinking itself -- run "
            "ALONE with the mutex free and no other thread in a cv spinlock section returns within 8 steps without any P or V); not covered by a theorem: the spin while "
            "a waker/unlocker still has to store waiting = 0, and fair-schedule termination under interference (stuck detector, cancel_mix quiescent-state observer)"]
-TRUSTED_BASE = ["Model/MuWaitModel.v / Model/CvModel.v control skeletons validated by lock-step replay"]
+TRUSTED_BASE = ["Model/MuWaitModel.v / Model/CvModel.v / Model/SemWaitModel.v control skeletons validated by lock-step replay; in SemWaitModel note_mu and the semaphore are abstract (C01/C02, C12 are the licence), cancel notes have no children"]
 
 
 def run(tier, seed):
@@ -27,9 +39,14 @@ def run(tier, seed):
     tie = mu_common.tie(res, "muwait_replay", "MuWaitModel", [("muwait_mix", {"VRT_MODE": 0, "VRT_CV": 0}, 200, 2000),
                                                               ("muwait_mix", {"VRT_MODE": 1, "VRT_CV": 0}, 200, 2000)], tier, seed)
     tie2 = mu_common.tie(res, "cv_replay", "CvModel", [("cv_mix", {"VRT_MODE": 0}, 150, 1500), ("cv_mix", {"VRT_MODE": 3}, 100, 1000)], tier, seed)
+    tie3 = mu_common.tie(res, "semwait_replay", "SemWaitModel",
+                         [("cancel_mix", {}, 150, 1500), ("cancel_mix", {"VRT_KIND": 0}, 60, 600), ("cancel_mix", {"VRT_KIND": 1}, 40, 400),
+                          ("cancel_mix", {"VRT_KIND": 2, "VRT_OMIT": 1}, 60, 600), ("cancel_mix", {"VRT_KIND": 3, "VRT_OMIT": 1}, 60, 600),
+                          ("cancel_mix", {"VRT_KIND": 2, "VRT_OMIT": 0}, 60, 600), ("cancel_mix", {"VRT_KIND": 3, "VRT_OMIT": 0}, 80, 800)], tier, seed)
     for k in ("traces_validated_against_impl", "lockstep_model_steps"):
-        tie[k] = tie.get(k, 0) + tie2.get(k, 0)
+        tie[k] = tie.get(k, 0) + tie2.get(k, 0) + tie3.get(k, 0)
     tie["model_sites_hit_cv"] = tie2.get("model_sites_hit", {})
+    tie["model_sites_hit_semwait"] = tie3.get("model_sites_hit", {})
     specs = [("cv_mix", {"VRT_MODE": 0}, 2000, 40000), ("cv_mix", {"VRT_MODE": 4}, 1500, 30000), ("muwait_mix", {"VRT_MODE": 0}, 2000, 40000),
              ("muwait_mix", {"VRT_MODE": 1}, 1000, 20000), ("muwait_mix", {"VRT_MODE": 0, "VRT_FINE": 600}, 1500, 30000), ("muwait_mix", {"VRT_MODE": 5}, 1000, 20000), ("cancel_mix", {}, 3000, 60000),
              # reader-mode / generic-lock timed and cancellable cv waits racing real wake-ups (MODE 6), untimed generic waits (MODE 5),
